@@ -39,6 +39,8 @@ type Spec struct {
 	HoldMs      int  `json:"hold_ms"`              // cancel -> first release of a detached h1 gate
 	Stagger     bool `json:"stagger_release"`
 	EarlyYields int  `json:"early_yields"` // scheduler yields between starting Serve and cancelling (mode early)
+	SlowHookMs  int  `json:"slow_connstate_hook_ms,omitempty"` // the user's ConnState hook takes this long for new HTTP/1.1 connections (hand-overs queue up)
+	HandoverH1  int  `json:"h1_handshakes_racing_cancel,omitempty"` // HTTP/1.1 clients whose handshakes complete around the cancel instant
 
 	Signal string `json:"signal,omitempty"` // binary runs: SIGTERM | SIGINT
 }
@@ -115,6 +117,9 @@ func genSpecs(run *verdict.Run) []Spec {
 		{Mode: "ctx-then-httpclose", IdleH1: k(), Stalled0: k(), AttPost: k()},
 		{Mode: "ctx", GatedH1: 1 + rng.Intn(3), NewH1: 1 + rng.Intn(3), HoldMs: 5600, AttPost: k(), IdleH1: k()},
 		{Mode: "ctx-twice", GatedH1: k(), GatedH1Ctx: k(), GatedH2: k(), IdleH1: k(), IdleH2: k(), Stalled0: k(), HoldMs: 400, Stagger: true, AttPre: k(), AttDuring: k(), AttPost: k()},
+		{Mode: "ctx", SlowHookMs: 40, HandoverH1: 8},
+		{Mode: "ctx", SlowHookMs: 25, HandoverH1: 12, IdleH1: k()},
+		{Mode: "ctx-twice", SlowHookMs: 60, HandoverH1: 6, IdleH2: k()},
 	}
 	n := run.Pick(40, 600)
 	modes := []string{"ctx", "ctx", "ctx", "ctx", "ctx", "ctx", "ctx", "ctx", "ctx", "ctx", "ctx-twice", "ctx-twice", "ctx-twice",
